@@ -304,25 +304,32 @@ class BackendRegistryState:
 class BackendRegistry:
     def __init__(self):
         self.state = BackendRegistryState()
-        self.use_lock = threading.Lock()
+        # Every method replaces self.state with a modified copy. The lock makes this read-modify-write atomic,
+        # and is reentrant since backend factories may call back into the registry.
+        self.use_lock = threading.RLock()
 
     def register(self, backend):
-        self.state = self.state.register(backend)
+        with self.use_lock:
+            self.state = self.state.register(backend)
 
     def register_on_import(self, module_name, backend_name, backend_factory):
-        self.state = self.state.register_on_import(module_name, backend_name, backend_factory)
+        with self.use_lock:
+            self.state = self.state.register_on_import(module_name, backend_name, backend_factory)
 
     def get_by_tensors(self, tensor):
-        self.state, backends = self.state.get_by_tensors(tensor)
-        return backends
+        with self.use_lock:
+            self.state, backends = self.state.get_by_tensors(tensor)
+            return backends
 
     def get_by_name(self, name):
-        self.state, backend = self.state.get_by_name(name)
-        return backend
+        with self.use_lock:
+            self.state, backend = self.state.get_by_name(name)
+            return backend
 
     def get(self, backend=None, tensors=None):
-        self.state, backend = self.state.get(backend, tensors)
-        return backend
+        with self.use_lock:
+            self.state, backend = self.state.get(backend, tensors)
+            return backend
 
     def enter(self, backend):
         with self.use_lock:
